@@ -6,7 +6,7 @@
    Floats are Flocq binary32 (FP.v) through the [alg] alg_f32.  The bisecting k-means path (>= 100
    sequences) is NOT modelled: for such inputs the guide tree is taken from the implementation
    (parametric tie, see DESIGN).  Executable; no proofs here. *)
-From KV Require Import Base FP Params Weave Bpm Cmp Kernels.
+From KV Require Import Base FP Params Weave Bpm BpmBits Cmp Kernels.
 From Flocq Require Import IEEE754.Bits.
 Local Open Scope Z_scope.
 
@@ -277,7 +277,7 @@ Definition f32_fltmax : f32 := f32_of_bits 2139095039.      (* FLT_MAX *)
 (* calc_distance + the length term of d_estimation: (float)bpm + (float)(MIN(10000.0, (l1+l2)/2) / 10000.0) *)
 Definition pair_distance (sa sb : list Z) : f32 :=
   let la := Z.of_nat (length sa) in let lb := Z.of_nat (length sb) in
-  let d := if lb <? la then bpm_block sa sb else bpm_block sb sa in
+  let d := if lb <? la then bpm_block_bits sa sb else bpm_block_bits sb sa in     (* the model C11_block is about *)
   let s := (la + lb) / 2 in
   let addv := f32_of_f64 (f64_div (f64_of_Z (Z.min 10000 s)) (f64_of_Z 10000)) in
   f32_add (f32_of_Z d) addv.
